@@ -18,7 +18,51 @@ pub fn ps_choice(rng: &mut Rng, len: usize) -> String {
     }
 }
 
+/// Programs that *do* something (interrupt routines with the key interrupt enabled, one-shot routines, stack
+/// and program-counter supervision cases, STOP / continue, MUL / DIV, board and timer ports, undefined opcodes):
+/// histories over random byte images rarely reach the states these reach.
+pub fn scenario_image(rng: &mut Rng) -> Vec<u8> {
+    match rng.below(6) {
+        0 | 1 => {
+            let di = rng.chance(1, 2);
+            crate::c_isa::c04_program(rng, di).0
+        }
+        2 => {
+            let kind = rng.below(8);
+            c05_program(rng, kind)
+        }
+        3 => confined_program(rng),
+        4 => {
+            // enable the key interrupt, then STOP / continue / an undefined opcode in the middle
+            let mut p: Vec<u8> = vec![0x20, 0x0A, 0x10, 0xFF, 0x7F, 0x10, 0x44, 0xF0, 0x1F, 0x7F, 0x14, 0x2C];
+            p.extend(&[0xFB, 0xE8, 0x40, 0xFB, 0x01, 0x5F, 0xF9, 0x08, 0x44, 0x01, 0x45]);
+            p.push(*rng.pick(&[0x02u8, 0x01, 0x4C, 0xE0, 0x00, 0xB1, 0xC6]));
+            p.extend(&[0x64, 0x20, 0xFE]);
+            p
+        }
+        _ => {
+            // board / timer / UART ports driven by the program
+            let mut p: Vec<u8> = vec![0xFB, 0xE8, 0x40];
+            for _ in 0..(2 + rng.below(5)) {
+                let port = 0xF0 + rng.byte() % 16;
+                p.extend(&[0xFB, rng.byte(), 0x10, 0xF0, 0x1F, port]); // LD R0, v ; ST (port), R0
+                if rng.chance(1, 2) {
+                    p.extend(&[0xFF, 0xF0 + rng.byte() % 16, 0x11]); // LD R1, (port)
+                }
+            }
+            p.extend(&[0x20, 0xFE]);
+            p
+        }
+    }
+}
+
 pub fn load_line(rng: &mut Rng) -> String {
+    if rng.chance(1, 3) {
+        let img = scenario_image(rng);
+        let ss = if rng.chance(1, 12) { "N" } else { *rng.pick(SS) };
+        let ps = if rng.chance(2, 3) { "255".to_string() } else { ps_choice(rng, img.len()) };
+        return format!("load {} {} {}", ss, ps, hexs(&img));
+    }
     let len = match rng.below(6) {
         0 => 240,
         1 => rng.below(8) as usize,
